@@ -116,18 +116,29 @@ class MultiFunction(Generic[T, P]):
     def _find_and_cache_method(self, key: T) -> Method[T, P] | None:
         """Find and cache the best method for dispatch value `key`."""
         with self._lock:
-            best_key: T | None = None
+            # Select the candidate which precedes every other candidate. Deciding
+            # pairwise while iterating would make the outcome depend on the iteration
+            # order of the method table (a dominated pair seen first would be reported
+            # as ambiguous even though a later method precedes both).
+            candidates = [
+                (method_key, method)
+                for method_key, method in self._methods.items()
+                if self._is_a(key, method_key)
+            ]
             best_method: Method | None = None
-            for method_key, method in self._methods.items():
-                if self._is_a(key, method_key):
-                    if best_key is None or self._precedes(method_key, best_key):
-                        best_key, best_method = method_key, method
-                    if not self._precedes(best_key, method_key):
-                        raise runtime.RuntimeException(
-                            "Cannot resolve a unique method for dispatch value "
-                            f"'{key}'; '{best_key}' and '{method_key}' both match and "
-                            "neither is preferred"
-                        )
+            for method_key, method in candidates:
+                if all(
+                    other_key == method_key or self._precedes(method_key, other_key)
+                    for other_key, _ in candidates
+                ):
+                    best_method = method
+                    break
+            if best_method is None and candidates:
+                ambiguous = ", ".join(f"'{k}'" for k, _ in candidates)
+                raise runtime.RuntimeException(
+                    "Cannot resolve a unique method for dispatch value "
+                    f"'{key}'; {ambiguous} all match and none is preferred over the rest"
+                )
 
             if best_method is None:
                 best_method = self._methods.val_at(self._default)
